@@ -50,7 +50,8 @@ RULE = ('Configuration grid reconnection on/off x reconnection_attempts '
         'suspended) - no effort may follow; a connect_error handler that '
         'raises at its j-th invocation during the effort - the effort goes '
         'on.'
-        ' The judged connection can be preceded by an earlier life of the same client object that the server ended (optionally with a failing disconnect handler).')
+        ' The judged connection can be preceded by an earlier life of the same client object that the server ended (optionally with a failing disconnect handler).'
+        ' A reconnection attempt can also be accepted and then closed by the server (engine.io CLOSE) before connect() has returned: no further attempt.')
 ASSUMPTIONS = [
     'waiting is observed through the wait primitives, never by wall clock',
     '"retries until success" is checked as bounded safety (finite patterns; '
